@@ -274,6 +274,7 @@ def execute(sc, plan, reference=None):
     from xitorch.grad import jac, hess
     from xitorch.linalg import solve
     SIM.reset()
+    torch.manual_seed(sc["valseed"])     # the posdef probe of cg/bicgstab draws its start vector from the global RNG
     env = build_env(sc)
     viol = []
     info = {"ops": [], "fired": None, "hits": 0, "misses": 0, "judged_sub": 0, "judged_plain": 0, "discarded": 0}
@@ -547,6 +548,7 @@ def execute(sc, plan, reference=None):
             val = None
             raised = None
             try:
+                torch.manual_seed(7000 + opidx)
                 val = do_op(o)
             except InjectedFault as e:
                 raised = e
@@ -566,6 +568,7 @@ def execute(sc, plan, reference=None):
                 info["fired"] = {"k": SIM.seq, "op": opidx, "opname": opname, "depth": len(ctxs)}
                 SIM.set_plan({})
                 try:
+                    torch.manual_seed(7000 + opidx)
                     val = do_op(o)
                     rec["retry"] = "ok"
                 except Exception as e:
